@@ -19,14 +19,14 @@ import (
 // buffer (views share the buffer of their source).
 
 type C19Step struct {
-	Op    string  `json:"op"`
-	I     int     `json:"i"`
-	J     int     `json:"j,omitempty"`
-	K     int     `json:"k,omitempty"`
-	Ints  []int   `json:"ints,omitempty"`
-	Mode  string  `json:"mode,omitempty"`
-	Code  int64   `json:"code,omitempty"`
-	Float bool    `json:"float,omitempty"`
+	Op    string `json:"op"`
+	I     int    `json:"i"`
+	J     int    `json:"j,omitempty"`
+	K     int    `json:"k,omitempty"`
+	Ints  []int  `json:"ints,omitempty"`
+	Mode  string `json:"mode,omitempty"`
+	Code  int64  `json:"code,omitempty"`
+	Float bool   `json:"float,omitempty"`
 }
 
 type C19Case struct {
